@@ -12,6 +12,7 @@
 
 #include <chrono>
 #include <atomic>
+#include <functional>
 #include <vector>
 #include <typeinfo>
 #include <typeindex>
@@ -105,6 +106,13 @@ namespace sqf::runtime
         // Number of decimals numbers are printed with (toFixed), -1 for the default format
         int m_scalar_decimals = -1;
 
+#ifdef SQFVM_RUNTIME_VERIF
+    public:
+        // Verification hook: invoked by the executing thread right before every instruction it
+        // executes (the run flag is held, the state is running). Lets a harness issue control
+        // actions at an exact instruction boundary instead of from a racing thread.
+        std::function<void()> verif_before_instruction;
+#endif
     public:
         int scalar_decimals() const { return m_scalar_decimals; }
         void scalar_decimals(int value) { m_scalar_decimals = value; }
